@@ -107,3 +107,49 @@ Proof.
   intros k pre st S d'.
   exact (view_ok_sound (OpDelete k) pre _ S (stop_calls_prefix st _)).
 Qed.
+
+(* ---- the tie to the class of disciplined traces ---- *)
+From MQ Require Import FSDiscipline.
+
+(* the executable model of a Save without faults is a member of the class *)
+Theorem save_calls_disciplined : forall k bufs leak,
+  disciplined (key_name k) (spool_name k) (concat bufs) dst0 (save_calls k bufs NoFault leak) = true.
+Proof.
+  intros k bufs leak. rewrite save_calls_nofault.
+  pose proof (chunked_save_disciplined (key_name k) (spool_name k) (concat bufs)
+                (key_ne_spool k k) bufs [] eq_refl) as H.
+  unfold chunked_save in H. rewrite app_nil_r in H.
+  cbn [app]. rewrite <- app_assoc. cbn [app]. apply H.
+  intros c [].
+Qed.
+
+(* what the generalised agreement accepts is atomic: when the calls strace recorded for a Save
+   pass the scanner, then stopped at ANY point (call boundary or inside a data write), from ANY
+   directory, Load gives the old value or the complete new one. *)
+Theorem dry_disciplined_atomic : forall k bufs dry st d,
+  dry_disciplined k bufs dry = true ->
+  let d' := run d (stop_calls st (rebuild (concat bufs) 0 dry)) in
+  load k d' = load k d \/ load k d' = Some (concat bufs).
+Proof.
+  intros k bufs dry st d H d'. unfold dry_disciplined in H.
+  apply Bool.andb_true_iff in H. destruct H as [_ H].
+  destruct (disciplined_atomic (key_name k) (spool_name k) (concat bufs)
+              _ d _ H (stop_calls_prefix st _)) as [A|A];
+    subst d'; unfold load; rewrite A; [left | right]; reflexivity.
+Qed.
+
+(* a Save that the generalised agreement accepts and that returned an error made no rename:
+   the key entry is the old one at every stop point *)
+Theorem save_seq_gen_failed_keeps_old : forall k bufs pre calls post p d,
+  save_seq_gen k bufs pre calls false post = true ->
+  stop_prefix p (rebuild (concat bufs) 0 calls) ->
+  lookup (key_name k) (run d p) = lookup (key_name k) d.
+Proof.
+  intros k bufs pre calls post p d H Hp. unfold save_seq_gen in H.
+  apply Bool.andb_true_iff in H. destruct H as [H _].
+  apply Bool.andb_true_iff in H. destruct H as [D R].
+  unfold dry_disciplined in D. apply Bool.andb_true_iff in D. destruct D as [_ D].
+  destruct (renamed_in (key_name k) (spool_name k) (rebuild (concat bufs) 0 calls)) eqn:E;
+    [discriminate|].
+  eapply no_rename_keeps_gen; [exact D | exact E | exact Hp].
+Qed.
